@@ -388,7 +388,38 @@ fn part_a(report: &Report) {
 // ---------------------------------------------------------------------------------------------
 // Part b: histories
 
+thread_local! {
+    /// countdown to the log append that fails (injected I/O error), for ops that append on the calling thread
+    static FAIL_IN: std::cell::Cell<Option<usize>> = const { std::cell::Cell::new(None) };
+}
+
+struct FailHooks;
+
+impl rip_kernel::verif::Hooks for FailHooks {
+    fn fail(&self, name: &'static str) -> bool {
+        if name != "log.append" {
+            return false;
+        }
+        FAIL_IN.with(|c| match c.get() {
+            Some(0) => {
+                c.set(None);
+                true
+            }
+            Some(n) => {
+                c.set(Some(n - 1));
+                false
+            }
+            None => false,
+        })
+    }
+}
+
 fn check_history(report: &Report, rt: &Arc<tokio::runtime::Runtime>, hist: &[H]) {
+    check_history_failing(report, rt, hist, None)
+}
+
+/// `fail`: (index of the op, k) - the k-th log append inside that op fails with an I/O error.
+fn check_history_failing(report: &Report, rt: &Arc<tokio::runtime::Runtime>, hist: &[H], fail: Option<(usize, usize)>) {
     let mut fx = Fx::new(rt.clone());
     let store = fx.store();
     let mut rx = store.subscribe();
@@ -396,8 +427,16 @@ fn check_history(report: &Report, rt: &Arc<tokio::runtime::Runtime>, hist: &[H])
     drop(store);
     let mut t = Track::new(thread.clone());
     let mut live: Vec<Event> = Vec::new();
-    for op in hist {
+    for (op_index, op) in hist.iter().enumerate() {
+        if let Some((i, k)) = fail {
+            if i == op_index {
+                FAIL_IN.with(|c| c.set(Some(k)));
+            }
+        }
         let _ = apply(&mut fx, &mut t, op);
+        if FAIL_IN.with(|c| c.replace(None)).is_none() && fail.map(|(i, _)| i == op_index).unwrap_or(false) {
+            report.count("ops_in_which_a_log_append_failed", 1);
+        }
         if matches!(op, H::Restart) {
             // a restarted authority has a new channel: keep what was received, subscribe again
             while let Ok(e) = rx.try_recv() {
@@ -409,7 +448,7 @@ fn check_history(report: &Report, rt: &Arc<tokio::runtime::Runtime>, hist: &[H])
             live.push(e);
         }
     }
-    let case = |extra: Value| json!({"engine": "H-histories", "harness": "c03.history", "history": hist.iter().map(name).collect::<Vec<_>>(), "detail": extra});
+    let case = |extra: Value| json!({"engine": "H-histories", "harness": "c03.history", "history": hist.iter().map(name).collect::<Vec<_>>(), "failing_log_append": fail.map(|(i, k)| json!({"op_index": i, "append_no": k})), "detail": extra});
     let mut threads = vec![thread.clone()];
     threads.extend(t.children.iter().cloned());
     for th in &threads {
@@ -476,7 +515,7 @@ pub fn run(opts: Opts) -> i32 {
          through serde write/read, the real EventLog and a snapshot; part b: every history of <=3 (quick) / <=4 (thorough) ops from \
          {message, answered run, write-tool run, failing-tool run, checkpoint-envelope runs, side effects, cursor, checkpoint, auto \
          compaction, branch, handoff, drop caches, restart} with subscribers attached first: per stream live == log == sidecar == store \
-         replay == snapshot; distinct = frame shape / history",
+         replay == snapshot; plus 81 histories in which the k-th (k = 0, 1, 2) log append inside one op fails with an injected I/O error: no view may hold a frame the log does not; distinct = frame shape / history",
     );
     report.assume("absent, null and empty-collection encodings of an optional field are the same value (the reader treats them alike)");
     part_a(&report);
@@ -494,5 +533,33 @@ pub fn run(opts: Opts) -> i32 {
         check_history(&report, rt, h);
         report.eval(Some(&h));
     });
+    // environment answer "error": inside one op of the history the k-th log append FAILS (injected at
+    // the log's fault seam). Whatever the op then does, no view may hold a frame the log does not.
+    // Ops that append on the calling thread (the injection is per thread).
+    {
+        rip_kernel::verif::install(Arc::new(FailHooks));
+        let failing: Vec<H> = vec![H::Msg, H::Side, H::Cursor(0), H::Rotate, H::SelPair, H::Ckpt(0), H::Auto { stride: 1, max_new: 2, dry: false }, H::Branch(0), H::Handoff(0)];
+        let mut cases: Vec<(Vec<H>, usize, usize)> = Vec::new();
+        for op in &failing {
+            for k in 0..3usize {
+                for pre in [vec![H::Msg], vec![H::Msg, H::Cursor(0), H::Msg], vec![H::Run, H::Ckpt(0)]] {
+                    let mut h = pre.clone();
+                    let at = h.len();
+                    h.push(op.clone());
+                    h.push(H::Msg);
+                    cases.push((h, at, k));
+                }
+            }
+        }
+        report.set_extra("failing_append_histories", json!(cases.len()));
+        cases.par_iter().for_each_init(new_rt, |rt, (h, at, k)| {
+            if report.over_cap() {
+                return;
+            }
+            check_history_failing(&report, rt, h, Some((*at, *k)));
+            report.eval(Some(&(h, at, k)));
+        });
+        rip_kernel::verif::clear();
+    }
     report.finish()
 }
